@@ -100,6 +100,8 @@ def gen_frames(rng, hevc, nmax, big_ok, malformed=False):
         k = rng.random()
         if k < 0.62:
             t += rng.choice([0, 1, 33, 40, 40, 40, 66, 100, 300])
+            if rng.random() < 0.04:   # long gaps: TimestampExtended byte, elapsed beyond 2^32
+                t += rng.choice([(1 << 24) - 1, 1 << 24, 1 << 30, (1 << 31) - 1000, 0xfffffe])
             dts = t
             pts = dts + rng.choice([0, 0, 0, 40, 80, 120, -1, -30, -40, 5000, 8388607, -8388608])
             sz = rng.choice([1, 1, 2, 3, 5, 17, 64, 200, 900, 1500])
